@@ -53,7 +53,7 @@ type node struct {
 
 func openNode(db ethdb.Database, w *world, cfg chainCfg, logger *log.Logger) (*node, error) {
 	opts := core.VerifZoneOptions{Location: loc, QuaiCoinbase: w.cbQuai, QiCoinbase: w.cbQi, GenesisTime: 1000, IndexAddressUtxo: cfg.IndexUtxo}
-	z, err := core.VerifNewZone(db, opts, logger)
+	z, err := core.VerifC07NewZone(db, opts, logger)
 	if err != nil {
 		return nil, err
 	}
@@ -195,12 +195,12 @@ func (c *chain) genPool(r *hlib.Rng) {
 		case 2: // cross-zone transfer: emits an outbound ETX
 			to := c.w.farQuai[r.Intn(len(c.w.farQuai))].addr
 			spec.to = &to
-			spec.gas = 21000*2 + uint64(r.Intn(30000))
+			spec.gas = 21000*3 + uint64(r.Intn(60000)) - uint64(r.Intn(2))*25000 // some fall short of ETXGas + TxGas
 			label = "external"
 		case 3: // Quai -> Qi conversion
 			to := c.w.qis[r.Intn(3)].addr
 			spec.to = &to
-			spec.gas = 21000*2 + uint64(r.Intn(200000))
+			spec.gas = 21000*3 + uint64(r.Intn(200000))
 			spec.value = new(big.Int).Mul(bigPow10(18), big.NewInt(int64(1+r.Intn(50))))
 			label = "convert"
 		case 4: // contract creation
@@ -288,7 +288,8 @@ func (c *chain) genPool(r *hlib.Rng) {
 				switch r.Pick(50, 25, 12, 13) {
 				case 1:
 					outs = append(outs, types.TxOut{Denomination: uint8(den), Address: c.w.qis[d2].addr.Bytes(), Lock: big.NewInt(0)})
-				case 2: // (an output to a Qi address of another zone is refused by the pool: the far zones are not eligible)
+				case 2: // an output to a Qi address of zone (1,0) (emits an ETX; (0,1) is "inactive" and trips the pool, see design/C07.md)
+					outs = append(outs, types.TxOut{Denomination: uint8(den), Address: c.w.farQi[1].addr.Bytes(), Lock: big.NewInt(0)})
 				case 3: // an output to an own-zone Quai address (Qi -> Quai conversion, emits an ETX)
 					if den > 9 {
 						outs = append(outs, types.TxOut{Denomination: uint8(den), Address: c.w.eoas[r.Intn(len(c.w.eoas))].addr.Bytes(), Lock: big.NewInt(0)})
